@@ -26,7 +26,7 @@ def run(R):
     n = 300 if R.quick else 20000
     trace, out = tc.run_harness(R, h, "fib", n, R.seed, ms, tc.corpus_files("C05"))
     if trace is None:
-        R.oracle_failure("harness-crash", "the Go harness aborted", dict(output=out[-2000:]))
+        tc.harness_abort(R, out, "harness-crash", "the Go harness aborted")
         return R.finish()
     rc, rout, text = tc.run_runner(exe, trace)
     rep = tc.Report(rout)
